@@ -1,6 +1,6 @@
 CONSTANT MaxCalls = 3
 CONSTANT Ks = {0, 1, 2}
-CONSTANT SkelIds = {1, 2, 3, 4, 5, 6, 7, 8, 9}
+CONSTANT SkelIds = {1, 2, 3, 4, 5, 6, 7, 8, 9, 10, 11, 12}
 CONSTANT AllPatterns = TRUE
 CONSTANT FreeSets = {{}, {1}, {2, 3}}
 CONSTANT TrackHist = FALSE
@@ -12,5 +12,6 @@ INVARIANT FailsIffTwinFails
 INVARIANT NoSelfInflictedFailure
 INVARIANT FreedAsTorch
 INVARIANT RetainKeepsEverything
+INVARIANT ParamOnlyBranchesFreed
 INVARIANT OnlyLastSweepFrees
 CHECK_DEADLOCK FALSE
